@@ -52,6 +52,11 @@ NA = {
 
 # id -> (category, text, note, technique, design_ref)
 CLAIMED = {
+ "C30": ("fault_enumeration",
+         "The allocator's verdict is hooked in InnerHeap::grow: the k-th growth attempt after arming fails (one-shot), under production, small-initial and exact-fit growth policies (exact-fit makes every allocation site a growth attempt) inside guarded allocations. Position k is sampled over the unfaulted run's attempts (biased to first/last), for 20 workloads x 3 sizes. Oracle: no panic/abort/hang; the query ends with error(resource_error(memory), _) (caught by the goal's catch/3 or escaping), never with its normal answer or another ball; the follow-up battery then gives fresh-machine answers; canaries intact. Failure sites are keyed by the crate functions above grow() in a captured backtrace, library catch-alls by the predicate that called the catching catch/3.",
+         "Trusts that exact-fit growth inside a managed allocation exercises the same propagation paths as production doubling (re-run under production/small policies too); only Heap growth is failed (not the stack, arena or Vec allocations); bursts of consecutive failures are out of the stated quantifier and not injected.",
+         "deterministic simulation with fault injection: k-th heap-growth failure under exact-fit/small/production growth policies, fresh-machine differential follow-up",
+         "DESIGN.md §3 C30"),
  "C31": ("fault_enumeration",
          "The instruction clock hooked into both dispatch loops raises the real INTERRUPT flag at instruction n and forces the poll there; the crate's own check_for_interrupt/throw/unwind code runs. Thorough enumerates every n (up to 25000) of every workload at its small size and of the textual goals, then samples the larger sizes; quick is a seeded sample. Oracle: no panic/hang, the query ends with error('$interrupt_thrown', _) (caught by the goal's catch/3 or escaping), never with its normal answer or another ball, and the 20-query follow-up battery then gives fresh-machine answers. Library catch-all sites that swallow the ball are identified by the predicate that called the catching catch/3 (hook in '$get_ball').",
          "Trusts: forcing the poll at a chosen boundary models production's every-256-instructions poll with history-dependent phase; the workload library (20 goals x 3 sizes + 13 textual goals) as 'a set of workloads'; follow-up battery as 'later goals compute correct results'. The context argument of the ball is not compared (library predicates re-throw with their own context).",
